@@ -2,6 +2,7 @@ import KoordVerif.Proofs.C17Flow
 import KoordVerif.Proofs.C17ExtNode
 import KoordVerif.Proofs.C17ExtRead
 import KoordVerif.Proofs.C17Ext3
+import KoordVerif.Proofs.C17Ext5
 /-
 C17 — migration jobs evict only after capacity is secured; finished jobs stay finished.
 
@@ -627,5 +628,84 @@ theorem arbitrator_stale_copy_never_flips (s : ArbS) (h : ∀ v, s.waiting = som
 example : (arbRun true ⟨Ph.succeeded, 3, true, true, false, none, false⟩ [.add, .round]).phase = Ph.succeeded := by decide
 example (ph ver : Nat) (pod nr rt : Bool) : ArbInv ⟨ph, ver, pod, nr, rt, none, false⟩ :=
   ⟨fun _ h => (by cases h), fun _ _ h => (by cases h)⟩
+
+/-! ### ext5 — the scavenger; jobs created by an earlier controller instance -/
+
+/-- **reconcile_ignores_foreign_job.**  A job stamped (`koordinator.sh/job-created-by`) by another Reconciler instance is
+    never touched by `Reconcile` of the running one: no API call, no change, under any fault mask.  Hence after a restart
+    (fresh uid) the reconciler itself never returns the reservation of a job its predecessor created — not even once the
+    TTL has passed (this is the hypothesis `hmine` of expired_deletes_reservation). -/
+theorem reconcile_ignores_foreign_job (w : World) (f : Nat) (h : foreign w = true) :
+    reconcile w f = (w, ⟨[], []⟩) := reconcile_foreign w f h
+
+/-- the job `Reconciler.Evict` of instance `c` creates is foreign to every instance with another uid -/
+theorem evict_created_job_foreign_after_restart (c u ttl : Nat) (d : Bool) (p : Pod) (e : Env) (hc : c ≠ 0) (hu : e.ctrl = u)
+    (hne : u ≠ c) : foreign { job := createdJob c d ttl p, env := e } = true := by
+  subst hu
+  simp [foreign, createdJob, hc, Ne.symm hne]
+
+/-- **scavenger_covers_foreign_jobs.**  "An expired job deletes its reservation", with controller restarts in the
+    quantifier: along EVERY history (environment events, reconciles and scavenger rounds under any faults, restarts with
+    any uid) from ANY start — so whoever created the job and whichever instance runs now — if the job still exists and
+    is past the scavenger's timeout (TTL + 5 min; 30 min without TTL), one scavenger round without a failed call deletes
+    the job and, before it, the reservation it references. -/
+theorem scavenger_covers_foreign_jobs (ops : List SOp) (s0 : SWorld)
+    (hg : (runS false s0 ops).gone = false)
+    (hexp : scavTimeout (runS false s0 ops).w.job.spec.ttl ≤ (runS false s0 ops).w.env.now) :
+    (scavenge false (runS false s0 ops) 0).1.gone = true ∧
+    ((runS false s0 ops).w.job.spec.resvRef = true → (scavenge false (runS false s0 ops) 0).1.w.env.resv = none) :=
+  scavenge_expired _ hg hexp
+
+/-- under ANY fault mask the scavenger deletes a job only after the reservation it references is gone (a failed
+    reservation delete ends the round: `break`) -/
+theorem scavenger_deletes_job_after_reservation (s : SWorld) (f : Nat) (hg : s.gone = false)
+    (hr : s.w.job.spec.resvRef = true) (hd : (scavenge false s f).1.gone = true) :
+    (scavenge false s f).1.w.env.resv = none := scavenge_order s f hg hr hd
+
+/-- **foreign_skipping_scavenger_never_returns_reservation.**  The rule of `Reconcile` copied into the scavenger
+    (`scavenge true`) leaks: a foreign job and its reservation survive EVERY history of time passing, reconciles and
+    scavenger rounds (any faults) of the running instance — the job stays as it is for good. -/
+theorem foreign_skipping_scavenger_never_returns_reservation (ops : List SOp) (s : SWorld)
+    (hq : ∀ op ∈ ops, op.quiet = true) (hf : foreign s.w = true) :
+    (runS true s ops).gone = s.gone ∧ (runS true s ops).w.job = s.w.job ∧ (runS true s ops).w.env.resv = s.w.env.resv :=
+  runS_skip_foreign ops s hq hf
+
+/-- a life: instance 1 creates the job through `Evict` (reservation-first, TTL 300 s) and its first reconcile creates the
+    reservation and records the ReservationRef; restart (instance 2); 700 s pass; reconcile, scavenge -/
+def lifeStart : SWorld :=
+  ⟨{ job := createdJob 1 false 300 ⟨1, 1, 0, 0, false⟩,
+     env := { now := 0, pod := some ⟨1, 1, 0, 0, false⟩, resv := none, bpod := 0, limited := false, preempt := 0, ctrl := 1 } }, false⟩
+
+def lifeOps : List SOp := [.base (.recon 0), .base (.restart 2), .base (.tick 700), .base (.recon 0)]
+
+/-- the hypotheses of scavenger_covers_foreign_jobs are met on that life, non-trivially: the job is foreign, Running, holds
+    a ReservationRef, the reservation exists — and the shipped scavenger returns it -/
+example : let s := runS false lifeStart lifeOps
+    foreign s.w = true ∧ s.gone = false ∧ s.w.job.status.phase = Ph.running ∧ s.w.job.spec.resvRef = true ∧
+    s.w.env.resv.isSome = true ∧ scavTimeout s.w.job.spec.ttl ≤ s.w.env.now ∧
+    (scavenge false s 0).1.w.env.resv = none ∧ (scavenge false s 0).1.gone = true := by decide
+
+/-- the full clause fails for the scavenger that skips foreign jobs -/
+theorem scavenger_skipping_foreign_jobs_counterexample :
+    ¬ (∀ s : SWorld, s.gone = false → scavTimeout s.w.job.spec.ttl ≤ s.w.env.now → s.w.job.spec.resvRef = true →
+        (scavenge true s 0).1.w.env.resv = none) := by
+  intro h
+  have := h (runS true lifeStart lifeOps) (by decide) (by decide) (by decide)
+  revert this
+  decide
+
+
+/-- what the scavenger does NOT cover (the open finding C17:expired-keeps-reservation:ref-write-failed, now for good): the
+    creating reconcile made the reservation but the write of the ReservationRef failed (4th write), the controller
+    restarted (the new instance ignores the job, so nothing re-adopts the reservation), the timeout passed — the scavenger
+    deletes the job and the reservation it created stays, without any referrer -/
+theorem scavenger_orphans_unrecorded_reservation_counterexample :
+    ¬ (∀ s : SWorld, s.gone = false → scavTimeout s.w.job.spec.ttl ≤ s.w.env.now →
+        (scavenge false s 0).1.w.env.resv = none) := by
+  intro h
+  have := h (runS false lifeStart [.base (.recon 8), .base (.restart 2), .base (.tick 700), .base (.recon 0)])
+    (by decide) (by decide)
+  revert this
+  decide
 
 end KoordVerif.C17
